@@ -16,6 +16,7 @@ import DatamonVerif.Drv.C05
 import DatamonVerif.Drv.C10
 import DatamonVerif.Drv.C13
 import DatamonVerif.Drv.C14
+import DatamonVerif.Drv.C07
 open DV
 
 def main (args : List String) : IO UInt32 := do
@@ -43,4 +44,5 @@ def main (args : List String) : IO UInt32 := do
   | ["model", "C10"] => loop C10.handler inp out C10.handler.init; return 0
   | ["model", "C13"] => loop C13.handler inp out C13.handler.init; return 0
   | ["model", "C14"] => loop C14.handler inp out C14.handler.init; return 0
+  | ["model", "C07"] => loop C07.handler inp out C07.handler.init; return 0
   | _ => IO.eprintln "usage: dvdriver model <Cxx>"; return 2
